@@ -1,4 +1,5 @@
 import CSSVerif.Engine3
+import CSSVerif.EngineTable
 def nats (s : String) : List Nat := if s = "" || s = "-" then [] else (s.splitOn ",").map String.toNat!
 def b (s : String) : Bool := s == "1"
 def parseRuleOut (s : String) : RuleOut :=
@@ -23,6 +24,9 @@ def UAcc.toBase (a : UAcc) : Universe :=
   { empty := a.empty, apply := fun σ x => ((a.app.find? (·.1 == (σ, x))).map (·.2)).getD [],
     initial := a.initial, inferral := a.inferral, expansion := a.expansion, ver := a.ver, sym := a.sym, expandVerified := a.ev }
 def UAcc.toU (a : UAcc) : E3.FUniverse := ⟨a.toBase, a.minsize, a.reverse⟩
+/-- the same table as a `UTab` (its `toU` is `toBase`): the contract WFU of the engine theorems, decided by the proven `wfuB` -/
+def UAcc.tab (a : UAcc) : UTab :=
+  { empty := a.empty, app := a.app, initial := a.initial, inferral := a.inferral, expansion := a.expansion, ver := a.ver, sym := a.sym, ev := a.ev }
 partial def runAll (u : E3.FUniverse) (fuel : Nat) (s : E3.St) (n : Nat) : E3.St × Nat :=
   match E3.stepEngine u fuel s with
   | (s, some _) => runAll u fuel s (n+1)
@@ -45,6 +49,6 @@ partial def loop (h : IO.FS.Stream) (a : UAcc) : IO Unit := do
       let u := a.toU
       let fuel := 4 * a.empty.size + 10
       let (s, n) := runAll u fuel (E3.initEngine u fuel c.toNat!) 0
-      IO.println (report s n); loop h a
+      IO.println (s!"wfu={if wfuB a.tab then 1 else 0} " ++ report s n); loop h a
     | _ => IO.println "bad"; loop h a
 def main : IO Unit := do loop (← IO.getStdin) {}
